@@ -89,6 +89,7 @@ def call(api, fn, *args, prop=None, tags=(), detail=None, refusals=(), refusal_p
         probe.S.busy = 0
         probe.S.depth = 0
         del probe.S.targets[:]
+        del probe.S.apis[:]
         if refusal_pred is not None and refusal_pred(e):  # a documented give-up of a heuristic, established from hooked state
             c.events['refused:' + api + ':' + type(e).__name__ + ':by_predicate'] += 1
             return False, None
@@ -114,4 +115,5 @@ def expect_refusal(api, fn, *args, prop=None, **kwargs):
         probe.S.busy = 0
         probe.S.depth = 0
         del probe.S.targets[:]
+        del probe.S.apis[:]
         c.events['inadmissible_refused:' + api + ':' + type(e).__name__] += 1
